@@ -14,6 +14,7 @@ from engine.api import Target, Proof, Native  # noqa: E402
 REPO = os.environ.get('VERIF_REPO', '/repo')
 NCPU = int(os.environ.get('VERIF_JOBS', '16'))
 
+AUX_DESC_RE = re.compile(r'^LOOP [^:]*: (invariant|variant|frame)')
 AUX_RE = re.compile(r'(loop_invariant_base|loop_invariant_step|loop_decreases|loop_assigns|loop_step_unwinding|'
                     r'\.assigns\.|\.unwind\.|recursion)')
 DEFAULT_CHECKS = ['--bounds-check', '--pointer-check', '--div-by-zero-check', '--signed-overflow-check',
@@ -80,6 +81,8 @@ def lower_targets(spec):
         body = ex.body
         rules = (X.COMMON_RULES if t.common else []) + t.rules
         body, fired = X.apply_rules(body, rules, what=t.name)
+        if t.marks:
+            body = X.mark_loops(body, t.marks, what=t.name)
         if t.loops:
             body = X.inject_loop_contracts(body, t.loops, what=t.name)
         if t.ghost:
@@ -450,8 +453,8 @@ def main():
     for r in results:
         if r.status != 'failed':
             continue
-        top = [(n, dsc) for n, dsc in r.failed if not AUX_RE.search(n)]
-        aux = [(n, dsc) for n, dsc in r.failed if AUX_RE.search(n)]
+        top = [(n, dsc) for n, dsc in r.failed if not (AUX_RE.search(n) or AUX_DESC_RE.search(dsc))]
+        aux = [(n, dsc) for n, dsc in r.failed if (AUX_RE.search(n) or AUX_DESC_RE.search(dsc))]
         obl_all = top + aux
         # try to obtain a concrete input
         inputs = None
